@@ -222,6 +222,11 @@ def run(rep, tier="quick", srcdir=None, only=None):
         rule_MP2(rep, prog)
     if want("C10-MP3"):
         rule_MP3(rep, prog)
+    if want("C18-MP4"):
+        # the invocations behave as items OF the submitting queue: helper threads run through the redirect invoke that installs that queue's
+        # thread frame (shared with C18)
+        from . import C18
+        C18.rule_MP4(rep, prog)
 
 
 MANIFEST = {
